@@ -20,6 +20,33 @@ Proof. unfold depth_run. cbn [fold_left]. destruct (depth_step (c, m) e); reflex
 Lemma depth_run_nil c m : depth_run c m [] = (c, m).
 Proof. reflexivity. Qed.
 
+Lemma depth_step_mono c c' m m' e :
+  c <= c' -> m <= m' ->
+  fst (depth_step (c, m) e) <= fst (depth_step (c', m') e) /\ snd (depth_step (c, m) e) <= snd (depth_step (c', m') e).
+Proof. intros Hc Hm. destruct e; cbn [depth_step fst snd]; lia. Qed.
+
+Lemma depth_run_mono evs : forall c c' m m',
+  c <= c' -> m <= m' ->
+  fst (depth_run c m evs) <= fst (depth_run c' m' evs) /\ snd (depth_run c m evs) <= snd (depth_run c' m' evs).
+Proof.
+  induction evs as [|e r IH]; intros c c' m m' Hc Hm; [cbn; lia|].
+  rewrite !depth_run_cons. destruct (depth_step_mono c c' m m' e Hc Hm) as [A B]. apply IH; assumption.
+Qed.
+
+Lemma depth_run_snd_ge evs : forall c m, m <= snd (depth_run c m evs).
+Proof.
+  induction evs as [|e r IH]; intros c m; [cbn; lia|]. rewrite depth_run_cons.
+  etransitivity; [|apply IH]. destruct e; cbn [depth_step fst snd]; lia.
+Qed.
+
+Lemma max_nesting_segment pre used post : max_nesting used <= max_nesting (pre ++ used ++ post).
+Proof.
+  unfold max_nesting. rewrite depth_run_app.
+  destruct (depth_run 0 0 pre) as [c1 m1]. cbn [fst snd]. rewrite depth_run_app.
+  destruct (depth_run_mono used 0 c1 0 m1 (Nat.le_0_l _) (Nat.le_0_l _)) as [_ B].
+  etransitivity; [exact B|]. destruct (depth_run c1 m1 used) as [c2 m2]. cbn [fst snd]. apply depth_run_snd_ge.
+Qed.
+
 (* ------------------------------------------------------------------------------------------------ *)
 (* 2. the recursive push loader: recursion depth = entry depth + nesting depth of what it consumed    *)
 (* ------------------------------------------------------------------------------------------------ *)
@@ -653,137 +680,35 @@ Proof.
 Qed.
 
 (* ------------------------------------------------------------------------------------------------ *)
-(* 8. flow-limit bypass: "[ ? ] , [ ? ] , ... [ ? ] ]]]" nests d sequences while the scanner's flow    *)
-(*    level never exceeds 1 (flow_sequence_entry_mapping_key consumes the "]" that ends the empty key)  *)
+(* 8. family A, "[ ? ] , [ ? ] , ... [ ? ] ]]]": since c5ad60c flow_sequence_entry_mapping_key no longer  *)
+(*    consumes the "]" that ends the empty key, so the first "[ ? ]" is a complete document and whatever  *)
+(*    follows it ("," or "]") is rejected: the former flow-limit bypass is an error VALUE at every depth  *)
 (* ------------------------------------------------------------------------------------------------ *)
 Definition null_ev : event := EScalar [126%N] Plain 0%N None.        (* empty_scalar: "~" *)
-Fixpoint qnode_evs (n : nat) : list event :=
-  match n with
-  | O => []
-  | S k => ESequenceStart 0%N None :: EMappingStart 0%N None :: null_ev :: null_ev :: EMappingEnd
-           :: qnode_evs k ++ [ESequenceEnd]
-  end.
-Definition qflow_events (d : nat) : list event :=
-  EStreamStart :: EDocumentStart false :: qnode_evs d ++ [EDocumentEnd; EStreamEnd].
-
-(* tokens after "[ ?" of a node with k further groups nested in it; [rest] follows its closing "]" *)
-Fixpoint qrest (k : nat) (rest : list token) : list token :=
-  match k with
-  | O => tk TFlowSequenceEnd :: tk TFlowSequenceEnd :: rest
-  | S j => tk TFlowSequenceEnd :: tk TFlowEntry :: tk TFlowSequenceStart :: tk TKey
-           :: qrest j (tk TFlowSequenceEnd :: rest)
-  end.
-
-Lemma q_first_entry keep toks stk :
-  state_machine (mkp keep (tk TKey :: toks) (Some (tk TFlowSequenceStart)) stk SFlowSequenceFirstEntry)
-  = Parser.Ok ((EMappingStart 0%N None, sp0), mkp keep toks None stk SFlowSequenceEntryMappingKey).
-Proof. reflexivity. Qed.
-Lemma q_map_key keep toks stk :
-  state_machine (mkp keep (tk TFlowSequenceEnd :: toks) None stk SFlowSequenceEntryMappingKey)
-  = Parser.Ok ((null_ev, sp0), mkp keep toks None stk SFlowSequenceEntryMappingValue).
-Proof. reflexivity. Qed.
-Lemma q_map_value_end keep toks stk :
-  state_machine (mkp keep (tk TFlowSequenceEnd :: toks) None stk SFlowSequenceEntryMappingValue)
-  = Parser.Ok ((null_ev, sp0), mkp keep toks (Some (tk TFlowSequenceEnd)) stk (SFlowSequenceEntryMappingEnd mk00)).
-Proof. reflexivity. Qed.
-Lemma q_map_value_entry keep toks stk :
-  state_machine (mkp keep (tk TFlowEntry :: toks) None stk SFlowSequenceEntryMappingValue)
-  = Parser.Ok ((null_ev, sp0), mkp keep toks (Some (tk TFlowEntry)) stk (SFlowSequenceEntryMappingEnd mk00)).
-Proof. reflexivity. Qed.
-Lemma q_map_end keep toks c stk :
-  state_machine (mkp keep toks c stk (SFlowSequenceEntryMappingEnd mk00))
-  = Parser.Ok ((EMappingEnd, sp0), mkp keep toks c stk SFlowSequenceEntry).
-Proof. reflexivity. Qed.
-Lemma q_seq_end_cached keep toks c stk :
-  state_machine (mkp keep toks (Some (tk TFlowSequenceEnd)) (c :: stk) SFlowSequenceEntry)
-  = Parser.Ok ((ESequenceEnd, sp0), mkp keep toks None stk c).
-Proof. reflexivity. Qed.
-Lemma q_seq_end keep toks c stk :
-  state_machine (mkp keep (tk TFlowSequenceEnd :: toks) None (c :: stk) SFlowSequenceEntry)
-  = Parser.Ok ((ESequenceEnd, sp0), mkp keep toks None stk c).
-Proof. reflexivity. Qed.
 Ltac pstep L := rewrite parse_all_S; cbn [mkp p_state]; unfold step_result; rewrite L.
 
-Lemma qnode_run : forall k keep rest c stk st,
-  exists p1,
-    parse_node (mkp keep (tk TKey :: qrest k rest) (Some (tk TFlowSequenceStart)) (c :: stk) st) false false
-      = Parser.Ok ((ESequenceStart 0%N None, sp0), p1)
-    /\ forall fuel se acc,
-         parse_all (5 + 6 * k + fuel) p1 se ((ESequenceStart 0%N None, sp0) :: acc)
-         = parse_all fuel (mkp keep rest None stk c) se (rev (evsp (qnode_evs (S k))) ++ acc).
+(* the events delivered before the error: one sequence holding one pair with an empty key and value *)
+Definition qflow_prefix_events : list event :=
+  [EStreamStart; EDocumentStart false; ESequenceStart 0%N None; EMappingStart 0%N None; null_ev; null_ev;
+   EMappingEnd; ESequenceEnd; EDocumentEnd].
+
+(* "[ ? ]" followed by a flow entry or a flow sequence end, followed by anything *)
+Lemma qflow_head_rejected (x : tok) rest keep se fuel :
+  x = TFlowEntry \/ x = TFlowSequenceEnd ->
+  parse_all (10 + fuel) (init_parser (tk TStreamStart :: qflow_group ++ tk x :: rest) keep) se []
+  = (evsp qflow_prefix_events, PParseErr 3 mk00).
 Proof.
-  induction k as [|k IH]; intros keep rest c stk st.
-  - exists (mkp keep (tk TKey :: qrest 0 rest) (Some (tk TFlowSequenceStart)) (c :: stk) SFlowSequenceFirstEntry).
-    split; [reflexivity|]. intros fuel se acc.
-    replace (5 + 6 * 0 + fuel) with (S (S (S (S (S fuel))))) by lia.
-    cbn [qrest].
-    pstep q_first_entry. pstep q_map_key. pstep q_map_value_end. pstep q_map_end. pstep q_seq_end_cached.
-    reflexivity.
-  - exists (mkp keep (tk TKey :: qrest (S k) rest) (Some (tk TFlowSequenceStart)) (c :: stk) SFlowSequenceFirstEntry).
-    split; [reflexivity|]. intros fuel se acc.
-    replace (5 + 6 * S k + fuel) with (S (S (S (S (S (5 + 6 * k + S fuel)))))) by lia.
-    cbn [qrest].
-    pstep q_first_entry. pstep q_map_key. pstep q_map_value_entry. pstep q_map_end.
-    rewrite parse_all_S. cbn [mkp p_state]. unfold step_result.
-    change (state_machine (mkp keep (tk TFlowSequenceStart :: tk TKey :: qrest k (tk TFlowSequenceEnd :: rest))
-                               (Some (tk TFlowEntry)) (c :: stk) SFlowSequenceEntry))
-      with (parse_node (mkp keep (tk TKey :: qrest k (tk TFlowSequenceEnd :: rest)) (Some (tk TFlowSequenceStart))
-                            (SFlowSequenceEntry :: c :: stk) SFlowSequenceEntry) false false).
-    destruct (IH keep (tk TFlowSequenceEnd :: rest) SFlowSequenceEntry (c :: stk) SFlowSequenceEntry) as (p1 & Hp & Hrun).
-    rewrite Hp, Hrun.
-    pstep q_seq_end.
-    f_equal. cbn [qnode_evs]. unfold evsp.
-    repeat first [rewrite map_app | rewrite rev_app_distr | progress cbn [map rev app] | rewrite <- app_assoc].
-    reflexivity.
+  intros [-> | ->]; destruct keep; reflexivity.
 Qed.
 
-(* the stream in nested form; d = S k groups *)
-Definition qflow_tokens_nested (k : nat) : list token :=
-  tk TStreamStart :: tk TFlowSequenceStart :: tk TKey :: qrest k [tk TStreamEnd].
-
-Lemma q_doc_start keep toks :
-  state_machine (mkp keep (tk TFlowSequenceStart :: toks) None [] SImplicitDocumentStart)
-  = Parser.Ok ((EDocumentStart false, sp0), mkp keep toks (Some (tk TFlowSequenceStart)) [SDocumentEnd] SBlockNode).
-Proof. reflexivity. Qed.
-Lemma q_doc_end keep :
-  state_machine (mkp keep [tk TStreamEnd] None [] SDocumentEnd)
-  = Parser.Ok ((EDocumentEnd, sp0), mkp keep [] (Some (tk TStreamEnd)) [] SDocumentStart).
-Proof. destruct keep; reflexivity. Qed.
-
-Lemma qflow_tokens_run k keep se fuel :
-  parse_all (6 * k + 11 + fuel) (init_parser (qflow_tokens_nested k) keep) se [] = (evsp (qflow_events (S k)), PDone).
+Lemma qflow_tokens_shape d :
+  1 <= d -> exists x rest, (x = TFlowEntry \/ x = TFlowSequenceEnd)
+                           /\ qflow_tokens d = tk TStreamStart :: qflow_group ++ tk x :: rest.
 Proof.
-  unfold qflow_tokens_nested.
-  replace (6 * k + 11 + fuel) with (S (S (S (5 + 6 * k + S (S (S fuel)))))) by lia.
-  rewrite parse_all_S. cbn [init_parser p_state]. unfold step_result. rewrite stream_start_step.
-  pstep q_doc_start.
-  rewrite parse_all_S. cbn [mkp p_state]. unfold step_result.
-  change (state_machine (mkp keep (tk TKey :: qrest k [tk TStreamEnd]) (Some (tk TFlowSequenceStart)) [SDocumentEnd] SBlockNode))
-    with (parse_node (mkp keep (tk TKey :: qrest k [tk TStreamEnd]) (Some (tk TFlowSequenceStart)) [SDocumentEnd] SBlockNode) true false).
-  destruct (qnode_run k keep [tk TStreamEnd] SDocumentEnd [] SBlockNode) as (p1 & Hp & Hrun).
-  (* at the top level the node is parsed in block context; a flow sequence start is handled alike *)
-  assert (Hp' : parse_node (mkp keep (tk TKey :: qrest k [tk TStreamEnd]) (Some (tk TFlowSequenceStart)) [SDocumentEnd] SBlockNode) true false
-                = Parser.Ok ((ESequenceStart 0%N None, sp0), p1)) by (rewrite <- Hp; reflexivity).
-  rewrite Hp', Hrun.
-  pstep q_doc_end. pstep stream_end_step.
-  rewrite parse_all_S. cbn [mkp p_state].
-  f_equal. unfold qflow_events, evsp.
-  repeat first [rewrite map_app | rewrite rev_app_distr | rewrite rev_involutive | progress cbn [map rev app] | rewrite <- app_assoc].
-  reflexivity.
+  intros H. destruct d as [|[|k]]; [lia| |].
+  - exists TFlowSequenceEnd, [tk TStreamEnd]. split; [auto|reflexivity].
+  - exists TFlowEntry. eexists. split; [auto|]. unfold qflow_tokens. cbn [Nat.pred qflow_groups app]. reflexivity.
 Qed.
-
-(* flat form:  StreamStart ([ ? ] ,)^k [ ? ] ]^(k+1) StreamEnd *)
-Lemma qrest_flat k : forall rest,
-  tk TFlowSequenceStart :: tk TKey :: qrest k rest
-  = qflow_groups k ++ qflow_group ++ repeat (tk TFlowSequenceEnd) (S k) ++ rest.
-Proof.
-  induction k as [|k IH]; intros rest; [reflexivity|].
-  cbn [qrest qflow_groups qflow_group app]. do 4 f_equal. rewrite IH. cbn [qflow_group app].
-  do 4 f_equal. cbn [repeat app]. f_equal. rewrite repeat_snoc_cons. reflexivity.
-Qed.
-
-Lemma qflow_tokens_nested_flat k : qflow_tokens_nested k = qflow_tokens (S k).
-Proof. unfold qflow_tokens_nested, qflow_tokens. cbn [Nat.pred]. rewrite qrest_flat. reflexivity. Qed.
 
 Lemma qflow_groups_length k : length (qflow_groups k) = 4 * k.
 Proof. induction k as [|k IH]; [reflexivity|]. cbn [qflow_groups qflow_group app length]. rewrite IH. lia. Qed.
@@ -794,51 +719,252 @@ Proof.
   rewrite !app_length, qflow_groups_length, repeat_length. cbn [qflow_group length]. lia.
 Qed.
 
-Lemma qflow_tokens_accepted d keep se :
-  1 <= d -> parse_tokens (qflow_tokens d) se keep = (evsp (qflow_events d), PDone).
-Proof.
-  intros H. destruct d as [|k]; [lia|]. unfold parse_tokens. rewrite qflow_tokens_length by lia.
-  rewrite <- qflow_tokens_nested_flat.
-  replace (4 * (5 * S k + 1) + 40) with (6 * k + 11 + (14 * k + 53)) by lia.
-  apply (qflow_tokens_run k keep se).
-Qed.
-
-(* the scanner's flow level along the stream never exceeds 1 *)
+(* the scanner's flow level along the stream never exceeds 1 (unchanged by the repair) *)
 Lemma flow_fold_groups k : forall m,
   fold_left tok_flow_step (qflow_groups k) (0, m) = (0, match k with O => m | S _ => Nat.max m 1 end).
 Proof.
   induction k as [|k IH]; intros m; [reflexivity|].
-  cbn [qflow_groups qflow_group app fold_left tok_flow_step snd tk Nat.pred]. rewrite IH.
-  f_equal. destruct k; lia.
+  cbn [qflow_groups qflow_group app fold_left]. 
+  change (tok_flow_step (0, m) (tk TFlowSequenceStart)) with (1, Nat.max m 1).
+  change (tok_flow_step (1, Nat.max m 1) (tk TKey)) with (1, Nat.max m 1).
+  change (tok_flow_step (1, Nat.max m 1) (tk TFlowSequenceEnd)) with (0, Nat.max m 1).
+  change (tok_flow_step (0, Nat.max m 1) (tk TFlowEntry)) with (0, Nat.max m 1).
+  rewrite IH. f_equal. destruct k; lia.
 Qed.
 
 Lemma flow_fold_closers n : forall m, fold_left tok_flow_step (repeat (tk TFlowSequenceEnd) n) (0, m) = (0, m).
-Proof. induction n as [|n IH]; intros m; [reflexivity|]. cbn [repeat fold_left tok_flow_step snd tk Nat.pred]. apply IH. Qed.
+Proof.
+  induction n as [|n IH]; intros m; [reflexivity|]. cbn [repeat fold_left].
+  change (tok_flow_step (0, m) (tk TFlowSequenceEnd)) with (0, m). apply IH.
+Qed.
 
 Lemma qflow_tokens_flow_level d : 1 <= d -> tok_flow_max (qflow_tokens d) = 1.
 Proof.
-  intros H. destruct d as [|k]; [lia|]. unfold tok_flow_max, qflow_tokens. cbn [Nat.pred].
-  cbn [fold_left tok_flow_step snd tk]. rewrite !fold_left_app, flow_fold_groups.
-  cbn [qflow_group fold_left tok_flow_step snd tk Nat.pred repeat].
-  rewrite flow_fold_closers. cbn [fold_left tok_flow_step snd tk]. destruct k; cbn [snd]; lia.
+  intros H. destruct d as [|k]; [lia|]. unfold tok_flow_max, tok_flow_run, qflow_tokens. cbn [Nat.pred].
+  cbn [fold_left]. change (tok_flow_step (0, 0) (tk TStreamStart)) with (0, 0).
+  rewrite !fold_left_app, flow_fold_groups.
+  cbn [qflow_group fold_left].
+  set (m := match k with O => 0 | S _ => Nat.max 0 1 end).
+  change (tok_flow_step (0, m) (tk TFlowSequenceStart)) with (1, Nat.max m 1).
+  change (tok_flow_step (1, Nat.max m 1) (tk TKey)) with (1, Nat.max m 1).
+  change (tok_flow_step (1, Nat.max m 1) (tk TFlowSequenceEnd)) with (0, Nat.max m 1).
+  rewrite flow_fold_closers. cbn [fold_left].
+  change (tok_flow_step (0, Nat.max m 1) (tk TStreamEnd)) with (0, Nat.max m 1).
+  cbn [snd]. subst m. destruct k; lia.
 Qed.
 
-(* ... while the events nest d + 1 deep (d sequences and the mapping of the innermost "?") *)
-Lemma qnode_evs_depth n : forall c m tail,
-  depth_run c m (qnode_evs n ++ tail)
-  = depth_run c (match n with O => m | S _ => Nat.max m (c + n + 1) end) tail.
+(* every member of the family is rejected with the same parse error (site 3: "did not find expected
+   <document start>") after the same nine events, which nest 2 deep *)
+Lemma qflow_rejected d keep se :
+  1 <= d ->
+  length (qflow_tokens d) = 5 * d + 1
+  /\ tok_flow_max (qflow_tokens d) = 1
+  /\ parse_tokens (qflow_tokens d) se keep = (evsp qflow_prefix_events, PParseErr 3 mk00)
+  /\ max_nesting qflow_prefix_events = 2.
 Proof.
-  induction n as [|n IH]; intros c m tail; [reflexivity|].
-  cbn [qnode_evs app]. rewrite !depth_run_cons. cbn [depth_step null_ev fst snd Nat.pred].
-  rewrite <- app_assoc, IH. cbn [app]. rewrite depth_run_cons. cbn [depth_step fst snd Nat.pred].
-  f_equal. destruct n; lia.
+  intros H. split; [apply qflow_tokens_length; exact H|]. split; [apply qflow_tokens_flow_level; exact H|].
+  split; [|reflexivity].
+  destruct (qflow_tokens_shape d H) as (x & rest & Hx & E).
+  unfold parse_tokens. rewrite qflow_tokens_length by exact H.
+  replace (4 * (5 * d + 1) + 40) with (10 + (20 * d + 34)) by lia.
+  change {| p_toks := qflow_tokens d; p_token := None; p_states := []; p_state := SStreamStart;
+            p_anchors := []; p_anchor_id := 1%N; p_tags := []; p_keep_tags := keep |}
+    with (init_parser (qflow_tokens d) keep).
+  rewrite E. apply qflow_head_rejected. exact Hx.
 Qed.
 
-Lemma qflow_events_depth d : 1 <= d -> max_nesting (qflow_events d) = d + 1.
+(* ------------------------------------------------------------------------------------------------ *)
+(* 9. family B, "[ : : ... : }}...}]": one synthetic (empty-span) FlowMappingStart per bare ':' — the   *)
+(*    scanner's flow level never exceeds 1, the parser model ACCEPTS the stream and nests d + 1 deep      *)
+(* ------------------------------------------------------------------------------------------------ *)
+Fixpoint cnode_evs (k : nat) : list event :=
+  match k with
+  | O => [EMappingStart 0%N None; null_ev; null_ev; EMappingEnd]
+  | S j => EMappingStart 0%N None :: null_ev :: cnode_evs j ++ [EMappingEnd]
+  end.
+Definition cflow_events (d : nat) : list event :=
+  match d with
+  | O => []
+  | S k => EStreamStart :: EDocumentStart false :: ESequenceStart 0%N None :: cnode_evs k
+           ++ [ESequenceEnd; EDocumentEnd; EStreamEnd]
+  end.
+
+(* tokens after the "FlowMappingStart Value" of a mapping with k further mappings nested in it; [rest] follows its
+   closing FlowMappingEnd *)
+Fixpoint crest (k : nat) (rest : list token) : list token :=
+  match k with
+  | O => tk TFlowMappingEnd :: rest
+  | S j => tk TFlowMappingStart :: tk TValue :: crest j (tk TFlowMappingEnd :: rest)
+  end.
+
+Lemma c_first_key keep toks stk :
+  state_machine (mkp keep (tk TValue :: toks) (Some (tk TFlowMappingStart)) stk SFlowMappingFirstKey)
+  = Parser.Ok ((null_ev, sp0), mkp keep toks (Some (tk TValue)) stk SFlowMappingValue).
+Proof. reflexivity. Qed.
+Lemma c_value_end keep toks stk :
+  state_machine (mkp keep (tk TFlowMappingEnd :: toks) (Some (tk TValue)) stk SFlowMappingValue)
+  = Parser.Ok ((null_ev, sp0), mkp keep toks (Some (tk TFlowMappingEnd)) stk SFlowMappingKey).
+Proof. reflexivity. Qed.
+Lemma c_key_end_cached keep toks c stk :
+  state_machine (mkp keep toks (Some (tk TFlowMappingEnd)) (c :: stk) SFlowMappingKey)
+  = Parser.Ok ((EMappingEnd, sp0), mkp keep toks None stk c).
+Proof. reflexivity. Qed.
+Lemma c_key_end keep toks c stk :
+  state_machine (mkp keep (tk TFlowMappingEnd :: toks) None (c :: stk) SFlowMappingKey)
+  = Parser.Ok ((EMappingEnd, sp0), mkp keep toks None stk c).
+Proof. reflexivity. Qed.
+Lemma c_value_nested keep toks stk :
+  state_machine (mkp keep (tk TFlowMappingStart :: toks) (Some (tk TValue)) stk SFlowMappingValue)
+  = parse_node (mkp keep toks (Some (tk TFlowMappingStart)) (SFlowMappingKey :: stk) SFlowMappingValue) false false.
+Proof. reflexivity. Qed.
+
+Lemma cnode_run : forall k keep rest c stk st,
+  exists p1,
+    parse_node (mkp keep (tk TValue :: crest k rest) (Some (tk TFlowMappingStart)) (c :: stk) st) false false
+      = Parser.Ok ((EMappingStart 0%N None, sp0), p1)
+    /\ forall fuel se acc,
+         parse_all (3 + 3 * k + fuel) p1 se ((EMappingStart 0%N None, sp0) :: acc)
+         = parse_all fuel (mkp keep rest None stk c) se (rev (evsp (cnode_evs k)) ++ acc).
 Proof.
-  intros H. unfold max_nesting, qflow_events.
-  rewrite !depth_run_cons. cbn [depth_step fst snd]. rewrite qnode_evs_depth.
-  rewrite !depth_run_cons. cbn [depth_step fst snd]. rewrite depth_run_nil. cbn [snd]. destruct d; lia.
+  induction k as [|k IH]; intros keep rest c stk st.
+  - exists (mkp keep (tk TValue :: crest 0 rest) (Some (tk TFlowMappingStart)) (c :: stk) SFlowMappingFirstKey).
+    split; [reflexivity|]. intros fuel se acc.
+    replace (3 + 3 * 0 + fuel) with (S (S (S fuel))) by lia.
+    cbn [crest].
+    pstep c_first_key. pstep c_value_end. pstep c_key_end_cached.
+    reflexivity.
+  - exists (mkp keep (tk TValue :: crest (S k) rest) (Some (tk TFlowMappingStart)) (c :: stk) SFlowMappingFirstKey).
+    split; [reflexivity|]. intros fuel se acc.
+    replace (3 + 3 * S k + fuel) with (S (S (3 + 3 * k + S fuel))) by lia.
+    cbn [crest].
+    pstep c_first_key.
+    rewrite parse_all_S. cbn [mkp p_state]. unfold step_result. rewrite c_value_nested.
+    destruct (IH keep (tk TFlowMappingEnd :: rest) SFlowMappingKey (c :: stk) SFlowMappingValue) as (p1 & Hp & Hrun).
+    rewrite Hp, Hrun.
+    pstep c_key_end.
+    f_equal. cbn [cnode_evs]. unfold evsp.
+    repeat first [rewrite map_app | rewrite rev_app_distr | progress cbn [map rev app] | rewrite <- app_assoc].
+    reflexivity.
+Qed.
+
+(* the stream in nested form; d = S k mappings *)
+Definition cflow_tokens_nested (k : nat) : list token :=
+  tk TStreamStart :: tk TFlowSequenceStart :: tk TFlowMappingStart :: tk TValue :: crest k [tk TFlowSequenceEnd; tk TStreamEnd].
+
+Lemma q_doc_start keep toks :
+  state_machine (mkp keep (tk TFlowSequenceStart :: toks) None [] SImplicitDocumentStart)
+  = Parser.Ok ((EDocumentStart false, sp0), mkp keep toks (Some (tk TFlowSequenceStart)) [SDocumentEnd] SBlockNode).
+Proof. reflexivity. Qed.
+Lemma c_seq_start keep toks stk :
+  state_machine (mkp keep toks (Some (tk TFlowSequenceStart)) stk SBlockNode)
+  = Parser.Ok ((ESequenceStart 0%N None, sp0), mkp keep toks (Some (tk TFlowSequenceStart)) stk SFlowSequenceFirstEntry).
+Proof. reflexivity. Qed.
+Lemma c_seq_first keep toks stk :
+  state_machine (mkp keep (tk TFlowMappingStart :: toks) (Some (tk TFlowSequenceStart)) stk SFlowSequenceFirstEntry)
+  = parse_node (mkp keep toks (Some (tk TFlowMappingStart)) (SFlowSequenceEntry :: stk) SFlowSequenceFirstEntry) false false.
+Proof. reflexivity. Qed.
+Lemma c_seq_end keep toks c stk :
+  state_machine (mkp keep (tk TFlowSequenceEnd :: toks) None (c :: stk) SFlowSequenceEntry)
+  = Parser.Ok ((ESequenceEnd, sp0), mkp keep toks None stk c).
+Proof. reflexivity. Qed.
+Lemma q_doc_end keep :
+  state_machine (mkp keep [tk TStreamEnd] None [] SDocumentEnd)
+  = Parser.Ok ((EDocumentEnd, sp0), mkp keep [] (Some (tk TStreamEnd)) [] SDocumentStart).
+Proof. destruct keep; reflexivity. Qed.
+
+Lemma cflow_tokens_run k keep se fuel :
+  parse_all (3 * k + 11 + fuel) (init_parser (cflow_tokens_nested k) keep) se [] = (evsp (cflow_events (S k)), PDone).
+Proof.
+  unfold cflow_tokens_nested.
+  replace (3 * k + 11 + fuel) with (S (S (S (S (3 + 3 * k + S (S (S (S fuel)))))))) by lia.
+  rewrite parse_all_S. cbn [init_parser p_state]. unfold step_result. rewrite stream_start_step.
+  pstep q_doc_start. pstep c_seq_start.
+  rewrite parse_all_S. cbn [mkp p_state]. unfold step_result. rewrite c_seq_first.
+  destruct (cnode_run k keep [tk TFlowSequenceEnd; tk TStreamEnd] SFlowSequenceEntry [SDocumentEnd] SFlowSequenceFirstEntry)
+    as (p1 & Hp & Hrun).
+  rewrite Hp, Hrun.
+  pstep c_seq_end. pstep q_doc_end. pstep stream_end_step.
+  rewrite parse_all_S. cbn [mkp p_state].
+  f_equal. unfold cflow_events, evsp.
+  repeat first [rewrite map_app | rewrite rev_app_distr | rewrite rev_involutive | progress cbn [map rev app] | rewrite <- app_assoc].
+  reflexivity.
+Qed.
+
+(* flat form:  StreamStart [ (FlowMappingStart Value)^(k+1) FlowMappingEnd^(k+1) ] StreamEnd *)
+Lemma crest_flat k : forall rest,
+  tk TFlowMappingStart :: tk TValue :: crest k rest
+  = flat_map (fun _ => cflow_pair) (repeat tt (S k)) ++ repeat (tk TFlowMappingEnd) (S k) ++ rest.
+Proof.
+  induction k as [|k IH]; intros rest; [reflexivity|].
+  cbn [crest]. rewrite IH. cbn [repeat flat_map cflow_pair app]. do 4 f_equal.
+  f_equal. f_equal. apply repeat_snoc_cons.
+Qed.
+
+Lemma cflow_tokens_nested_flat k : cflow_tokens_nested k = cflow_tokens (S k).
+Proof.
+  unfold cflow_tokens_nested, cflow_tokens. rewrite crest_flat. reflexivity.
+Qed.
+
+Lemma cflow_pairs_length d : length (flat_map (fun _ => cflow_pair) (repeat tt d)) = 2 * d.
+Proof. induction d as [|d IH]; [reflexivity|]. cbn [repeat flat_map cflow_pair app length]. rewrite IH. lia. Qed.
+
+Lemma cflow_tokens_length d : length (cflow_tokens d) = 3 * d + 4.
+Proof.
+  unfold cflow_tokens. cbn [length]. rewrite !app_length, cflow_pairs_length, repeat_length. cbn [length]. lia.
+Qed.
+
+Lemma cflow_tokens_accepted d keep se :
+  1 <= d -> parse_tokens (cflow_tokens d) se keep = (evsp (cflow_events d), PDone).
+Proof.
+  intros H. destruct d as [|k]; [lia|]. unfold parse_tokens. rewrite cflow_tokens_length.
+  rewrite <- cflow_tokens_nested_flat.
+  replace (4 * (3 * S k + 4) + 40) with (3 * k + 11 + (9 * k + 57)) by lia.
+  apply (cflow_tokens_run k keep se).
+Qed.
+
+(* the scanner's flow level along the stream: only the '[' counts *)
+Lemma flow_fold_cpairs d : forall c m,
+  fold_left tok_flow_step (flat_map (fun _ => cflow_pair) (repeat tt d)) (c, m) = (c, m).
+Proof.
+  induction d as [|d IH]; intros c m; [reflexivity|].
+  cbn [repeat flat_map cflow_pair app fold_left].
+  change (tok_flow_step (c, m) (tk TFlowMappingStart)) with (c, m).
+  change (tok_flow_step (c, m) (tk TValue)) with (c, m). apply IH.
+Qed.
+
+Lemma flow_fold_mclosers n : forall c m,
+  fold_left tok_flow_step (repeat (tk TFlowMappingEnd) n) (c, m) = (c - n, m).
+Proof.
+  induction n as [|n IH]; intros c m; [cbn; f_equal; lia|]. cbn [repeat fold_left].
+  change (tok_flow_step (c, m) (tk TFlowMappingEnd)) with (Nat.pred c, m). rewrite IH. f_equal. lia.
+Qed.
+
+Lemma cflow_tokens_flow_level d : tok_flow_max (cflow_tokens d) = 1.
+Proof.
+  unfold tok_flow_max, tok_flow_run, cflow_tokens. cbn [fold_left].
+  change (tok_flow_step (0, 0) (tk TStreamStart)) with (0, 0).
+  change (tok_flow_step (0, 0) (tk TFlowSequenceStart)) with (1, 1).
+  rewrite !fold_left_app, flow_fold_cpairs, flow_fold_mclosers. cbn [fold_left].
+  change (tok_flow_step (1 - d, 1) (tk TFlowSequenceEnd)) with (Nat.pred (1 - d), 1).
+  reflexivity.
+Qed.
+
+(* ... while the events nest d + 1 deep (the sequence and d mappings) *)
+Lemma cnode_evs_depth k : forall c m tail,
+  depth_run c m (cnode_evs k ++ tail) = depth_run c (Nat.max m (c + k + 1)) tail.
+Proof.
+  induction k as [|k IH]; intros c m tail.
+  - cbn [cnode_evs app]. rewrite !depth_run_cons. cbn [depth_step null_ev fst snd Nat.pred]. f_equal. lia.
+  - cbn [cnode_evs app]. rewrite !depth_run_cons. cbn [depth_step null_ev fst snd Nat.pred].
+    rewrite <- app_assoc, IH. cbn [app]. rewrite depth_run_cons. cbn [depth_step fst snd Nat.pred].
+    f_equal. lia.
+Qed.
+
+Lemma cflow_events_depth d : 1 <= d -> max_nesting (cflow_events d) = d + 1.
+Proof.
+  intros H. destruct d as [|k]; [lia|]. unfold max_nesting, cflow_events.
+  rewrite !depth_run_cons. cbn [depth_step fst snd]. rewrite cnode_evs_depth.
+  rewrite !depth_run_cons. cbn [depth_step fst snd]. rewrite depth_run_nil. cbn [snd]. lia.
 Qed.
 
 (* "an accepted token stream whose flow level stays within L nests at most L (+1) deep" is false for every L >= 1 *)
@@ -849,18 +975,18 @@ Definition flow_limit_bounds_nesting (L : nat) : Prop :=
 
 Lemma flow_limit_bypass d keep se :
   1 <= d ->
-  length (qflow_tokens d) = 5 * d + 1
-  /\ tok_flow_max (qflow_tokens d) = 1
-  /\ parse_tokens (qflow_tokens d) se keep = (evsp (qflow_events d), PDone)
-  /\ max_nesting (qflow_events d) = d + 1.
+  length (cflow_tokens d) = 3 * d + 4
+  /\ tok_flow_max (cflow_tokens d) = 1
+  /\ parse_tokens (cflow_tokens d) se keep = (evsp (cflow_events d), PDone)
+  /\ max_nesting (cflow_events d) = d + 1.
 Proof.
-  intros H. split; [apply qflow_tokens_length; exact H|]. split; [apply qflow_tokens_flow_level; exact H|].
-  split; [apply qflow_tokens_accepted; exact H|]. apply qflow_events_depth; exact H.
+  intros H. split; [apply cflow_tokens_length|]. split; [apply cflow_tokens_flow_level|].
+  split; [apply cflow_tokens_accepted; exact H|]. apply cflow_events_depth; exact H.
 Qed.
 
 Lemma flow_limit_does_not_bound_nesting : forall L, 1 <= L -> ~ flow_limit_bounds_nesting L.
 Proof.
-  intros L HL HB. specialize (HB (qflow_tokens (S L)) SEnded false).
+  intros L HL HB. specialize (HB (cflow_tokens (S L)) SEnded false).
   destruct (flow_limit_bypass (S L) false SEnded) as (_ & F & E & D); [lia|].
   rewrite E in HB. cbn [fst snd] in HB. rewrite evs_of_evsp, D, F in HB. specialize (HB HL eq_refl). lia.
 Qed.
